@@ -33,7 +33,7 @@ func run(seed uint64, n int, tier string, outDir string) []*Stats {
 		sta.Finish("debug")
 		return []*Stats{sta}
 	}
-	cf := NewCoqFile("From V Require Import Common.Base C01.Utf C01.Quote C01.SpecLiteral C01.Num C01.SpecNumeric C01.Keys C01.Harness.")
+	cf := NewCoqFile("From V Require Import Common.Base C01.Utf C01.Quote C01.SpecLiteral C01.Num C01.SpecNumeric C01.Keys C01.Template C01.Harness.")
 	extra := ""
 
 	// 1. literal printers against the Coq model (hook level) + predicate
@@ -44,6 +44,10 @@ func run(seed uint64, n int, tier string, outDir string) []*Stats {
 	stk := NewStats("c01-keys", seed)
 	extra += corrKeys(r, stk, cf, n)
 	stk.Finish("property keys and member names: grid of identifier-boundary names (ASCII, ES5/ESNext table edges, ZWJ/ZWNJ, non-BMP identifier characters, reserved words, __proto__, non-identifiers) plus seeded UTF-16 sequences x printer configuration; canPrintIdentifierUTF16, the string-key branch of printProperty and the name branch of EDot compared byte-exactly with the Coq model (tables regenerated from unicode.go by translator t9idtables); the printed key decoded by the specification must denote the same key; distinct_nontrivial = distinct (name, configuration)")
+
+	stt := NewStats("c01-templates", seed)
+	extra += corrTemplates(r, stt, cf, n/2)
+	stt.Finish("templates with substitutions (random cooked head / tails over all UTF-16 classes, chunks ending in $, \\0, CR, starting with {; 0..3 substitutions) x printer configuration x prefix column, BigInt literal texts and regular expression literal texts after prefixes ending in / < = identifier: exact bytes compared with the Coq model (C01/Template.v); the model's code points split by the template specification into exactly the cooked chunks; the real bytes cut at the substitutions and each chunk decoded by the harness oracle; distinct_nontrivial = distinct cases with a substitution / with a guard space")
 
 	stn := NewStats("c01-numbers", seed)
 	extra += corrNumbers(r, stn, cf, n+n/2)
@@ -77,7 +81,7 @@ func run(seed uint64, n int, tier string, outDir string) []*Stats {
 	if err := os.WriteFile(filepath.Join(outDir, "c01_cases.v"), []byte(cf.String()+extra), 0o644); err != nil {
 		panic(err)
 	}
-	return []*Stats{sts, stk, stn, stg, sth, sta, stasi, stl, st}
+	return []*Stats{sts, stk, stt, stn, stg, sth, sta, stasi, stl, st}
 }
 
 type tcase struct {
